@@ -495,7 +495,8 @@ pub fn detect_profile_info(profile: &[u8]) -> Result<IccProfileInfo> {
                 return Err(Error::UnsupportedIccProfile);
             }
             [b'c', b'i', b'c', b'p'] => {
-                cicp = data[..4].try_into().ok();
+                // type signature (4 bytes), reserved (4 bytes), then the four CICP fields
+                cicp = data.get(8..12).and_then(|v| v.try_into().ok());
             }
             _ => {}
         }
